@@ -205,6 +205,7 @@ def c_lints(ctx, P, scope, rule="C-LINT", tus=None):
             ctx.ob(rule, fn.name, ok, where, why)
     copy_paste(ctx, P, scope, tus=tus)
     dead_stores(ctx, P, scope, tus=tus)
+    width_and_flags(ctx, P, scope, tus=[k for k in (tus or LIB_TUS + ["kastore"]) if k != "module"])
     return n
 
 
@@ -313,4 +314,38 @@ def dead_stores(ctx, P, scope, rule="C-DEAD-STORE", tus=None):
             n += 1
             ctx.ob(rule, fn.name, not dead, tu.loc(writes[dead[0]]) if dead else tu.loc(fn.node),
                    "every assigned local is read" if not dead else "local(s) %s assigned but never read" % dead)
+    return n
+
+
+FLAG_EQ_OK = {("kastore_put", "(flags != 0)"), ("kastore_put", "(flags != KAS_BORROWS_ARRAY)"), ("kastore_oput", "(flags != 0)")}
+
+
+def width_and_flags(ctx, P, scope, rule="C-WIDTH", tus=None):
+    ctx.rule(rule, "coordinates, times and sort keys keep double precision and option words are tested bitwise: no struct of the "
+                   "library has a `float` member, no expression is cast to float, and a flags / options word is never compared for "
+                   "equality with 0 or with a single flag (other bits such as ownership flags are routinely set) outside the frozen "
+                   "argument checks of kastore_put")
+    n = 0
+    for key in (tus or LIB_TUS + ["kastore"]):
+        tu = P.tus[key]
+        for sname, fields in tu.structs.items():
+            for f, ty, d in fields:
+                if re.search(r"\bfloat\b", ty or ""):
+                    if key == "kastore":
+                        continue
+                    ctx.ob(rule, "struct|%s.%s" % (sname, f), False, tu.path, "member `%s %s` loses precision (every time / coordinate column is double)" % (ty, f))
+        for fn in tu.funcs.values():
+            if not scope(key, fn.name):
+                continue
+            bad = None
+            for x in walk(fn.body):
+                if x.k == "CStyleCastExpr" and (x.ty or "") == "float":
+                    bad = (x, "`%s` is cast to float" % estr(x.kids[-1])[:60])
+                if x.k == "BinaryOperator" and x.op in ("==", "!="):
+                    l, r = estr(x.kids[0]), estr(x.kids[1])
+                    if re.search(r"(^|->|\.)(flags|options)$", l) and r != "NULL" and not re.search(r"\bNULL\b", r) \
+                            and "*" not in (strip(x.kids[0]).ty or "") and (fn.name, estr(x)) not in FLAG_EQ_OK:
+                        bad = (x, "`%s`: an option word compared for equality instead of tested with &" % estr(x)[:70])
+            n += 1
+            ctx.ob(rule, fn.name, bad is None, tu.loc(bad[0]) if bad else tu.loc(fn.node), "clean" if bad is None else bad[1])
     return n
